@@ -238,15 +238,19 @@ func runC04(c *Ctx) {
 			// the request's facts are typed in, the configuration (rules, checks, ordered
 			// policies, its own facts) is then loaded from a snapshot made elsewhere: the
 			// content is the same as when everything is typed in, and so must the verdict be
+			// (the request side may also bring rules, checks and policies of its own: what is
+			// given before the load stays in force, loaded policies come after; finding D29)
 			var typed, cfg []AuthOp
+			own := r.Chance(1, 2)
 			for k, o := range a.Ops {
-				if o.K == "addfact" && k%2 == 0 {
+				if (o.K == "addfact" || own) && k%2 == 0 {
 					typed = append(typed, o)
 				} else {
 					cfg = append(cfg, o)
 				}
 			}
-			ref := withOps(a, AuthOp{K: "authorize"})
+			ref := a
+			ref.Ops = append(append(append([]AuthOp{}, typed...), cfg...), AuthOp{K: "authorize"})
 			a.Ops = append(append([]AuthOp{}, typed...), AuthOp{K: "load", Sub: cfg}, AuthOp{K: "authorize"})
 			c.Count("shape:typed-then-loaded")
 			if len(typed) > 0 {
@@ -1227,6 +1231,27 @@ func undeclaredSymbols(c *Ctx) {
 			sx := "(case (bytes " + hx(dT) + ") (expect " + hxs("reject") + "))"
 			res := execCase("WIRE", sx)
 			c.Case("WIRE", c.NewID("undeclared"), sx, res)
+			// the same block one position later, after an authority block that declares nothing:
+			// an EARLIER NON-AUTHORITY block with a dangling reference, and B after it
+			if len(v.checks) > 0 {
+				auth0 := mustMarshal(&pb.Block{Context: &ctx, Version: &three, FactsV2: []*pb.FactV2{pbFact(sym("right"), pbInt(1))}})
+				envT2, _ := forgeEnvelope(priv, [][]byte{auth0, auth}, NewRng(uint64(290+k)), nil, false)
+				envTB2, _ := forgeEnvelope(priv, [][]byte{auth0, auth, blk}, NewRng(uint64(290+k)), nil, false)
+				dT2, dTB2 := mustMarshal(envT2), mustMarshal(envTB2)
+				resT2, resTB2 := authorize(dT2, v.content), authorize(dTB2, v.content)
+				c.Eval()
+				c.Count("undeclared:later-block:" + v.name + ":" + resT2 + "->" + resTB2)
+				c.NonTrivial(hx(dTB2))
+				if resT2 != "ok" && resTB2 == "ok" {
+					c.Violate("C02/undeclared-symbol:later-block:"+v.name, fmt.Sprintf("a token whose block 1 refers to an undeclared symbol is %s, and accepted once a holder appends a block declaring a symbol", resT2),
+						map[string]interface{}{"T": hx(dT2), "TB": hx(dTB2), "declared": k})
+				}
+				for _, d := range [][]byte{dT2, dTB2} {
+					sx2 := "(case (bytes " + hx(d) + ") (expect " + hxs("reject") + "))"
+					res2 := execCase("WIRE", sx2)
+					c.Case("WIRE", c.NewID("undeclared"), sx2, res2)
+				}
+			}
 		}
 	}
 }
